@@ -80,6 +80,10 @@ def elements(kind, missing=True, boundary=False, small=True):
         if missing:
             return st.one_of(base, base, base, st.just(np.timedelta64('NaT', unit)))
         return base
+    if kind == 'object:int':   # an object column whose elements are all ints (its dtype is not implied by its elements)
+        return st.integers(-5, 20)
+    if kind == 'object:str':
+        return st.sampled_from(['a', 'b', 'xyz', 'abcde'])
     if kind == 'object':
         opts = [st.integers(-5, 20), st.sampled_from(['a', 'b', 'xyz', '']), st.booleans(),
                 st.sampled_from([0.5, 2.0, -1.5])]
@@ -92,7 +96,7 @@ def elements(kind, missing=True, boundary=False, small=True):
 
 
 def np_dtype(kind):
-    if kind == 'object':
+    if kind == 'object' or kind.startswith('object:'):
         return np.dtype(object)
     return np.dtype(kind)
 
